@@ -81,7 +81,8 @@ func genC13(t *rapid.T) c13Case {
 
 func genC13Config(t *rapid.T) cfggen.Config {
 	var c struct{ Cfg cfggen.Config }
-	ns := rapid.IntRange(1, 5).Draw(t, "nscopes")
+	// mostly a handful of secret configurations, one time in five a long list (13 to 40)
+	ns := rapid.OneOf(rapid.IntRange(1, 5), rapid.IntRange(1, 5), rapid.IntRange(1, 5), rapid.IntRange(1, 5), rapid.SampledFrom([]int{13, 14, 17, 24, 40})).Draw(t, "nscopes")
 	for i := 0; i < ns; i++ {
 		np := rapid.IntRange(1, 3).Draw(t, "nprefixes")
 		var ps []string
